@@ -319,6 +319,12 @@ func RunPath(ad Adapter, init State, ops []Op, expect []State, drain bool) (trac
 		if err != nil {
 			panic("apply: " + err.Error())
 		}
+		if expect == nil && SparseObs != nil && SparseObs.Intn(3) != 0 {
+			// sparse observation (random driver): the state is NOT read after this call, so that a cached value
+			// which only a read would repair (a lazily recomputed length, a cursor) stays as the call left it
+			trace = append(trace, Event{"ev": op.N, "a": rawArgs(op.A), "r": Canon(ret)})
+			continue
+		}
 		obs := ad.Obs()
 		trace = append(trace, Event{"ev": op.N, "a": rawArgs(op.A), "r": Canon(ret), "o": Canon(obs)})
 		if expect == nil {
@@ -355,6 +361,9 @@ func RunPath(ad Adapter, init State, ops []Op, expect []State, drain bool) (trac
 	}
 	return trace, nil, drift
 }
+
+// SparseObs, when set, makes RunPath (without expectations) observe the state only after one call in three.
+var SparseObs *rand.Rand
 
 // HangTimeout is how long one API call may take before it is declared hung. Calls take
 // microseconds; the generous bound keeps machine load from ever causing a false alarm.
